@@ -145,32 +145,65 @@ Definition ev_default : event := EvDelPolicy "".
 Definition pick (evs : list event) (idx : list nat) : list event := map (fun i => nth i evs ev_default) idx.
 
 (* ------------------------------------------------------------------ the controller projection
-   observed per WAF operation: the sets index.conf lists, the files in the folder.
-   X: the model's folder equals the listed sets.  S (on the observations and the objects only): the
-   index lists exactly the files that exist; after a signature operation it lists exactly the sets
-   in force for the current objects; other operations leave it alone.
-   bit 2 as above (the F37 class seen through the controller), bit 16 = any other failure. *)
+   observed per WAF operation that went through the controller:
+     mode 0 = a single operation, 1 = inside the clean-up of a namespace that stops being watched
+     (one call of cleanupUnwatchedAppWafResources performs the whole group; nothing observed yet),
+     2 = that clean-up is complete;
+     the sets index.conf lists, the files in the folder, the APPolicy answers over the key universe,
+     the APPolicy keys whose dependent Ingress a processed change regenerated, the Rejected events.
+   X: the model's folder equals the listed sets and the model's policy answers equal the observed.
+   S (on the observations and the objects only): the index lists exactly the files that exist; after
+   a signature operation / a clean-up it lists exactly the sets in force for the current objects;
+   other operations leave it alone; every policy whose usability differs from the previous observed
+   step is among the processed ones, with a Rejected event when it stays and stopped being usable.
+   bit 2 as above (the F37 class seen through the controller), bit 16 = folder wrong,
+   bit 32 = a policy flip that no processed change carried. *)
 Definition sig_in_force_keys (ob : objects) (wkeys : list string) : list string :=
   filter (fun k => match spec_sig_answer (ob_sig ob) k with AOk => true | _ => false end) wkeys.
 
-Fixpoint ctl_check (fx : bool) (sf : state * list string) (ob : objects) (prev : list string)
-         (wkeys : list string) (evs : list event) (obs : list (list string * list string)) : bool * Z :=
+Definition ctl_obs := (Z * list string * list string * string * list string * list string)%type.
+
+Fixpoint policy_flips_processed (keys : list string) (prev now : list ascii) (pp rj : list string) : bool :=
+  match keys, prev, now with
+  | k :: keys', p :: prev', q :: now' =>
+      (if Bool.eqb (is_ok p) (is_ok q) then true
+       else smem k pp && (if is_ok p && negb (Ascii.eqb q "N"%char) then smem ("R0:" ++ k)%string rj else true)) &&
+      policy_flips_processed keys' prev' now' pp rj
+  | [], _, _ => true
+  | _, _, _ => false
+  end.
+
+Definition is_waf_sig_event (ev : event) : bool :=
+  match ev with EvUserSig _ _ | EvDelUserSig _ => true | _ => false end.
+
+Fixpoint ctl_check (fx : bool) (sf : state * list string) (ob : objects) (prev : list string) (prev_pa : list ascii)
+         (gs : bool) (* the clean-up group in progress has deleted a signature *) (wkeys : list string) (evs : list event) (obs : list ctl_obs) : bool * Z :=
   match evs, obs with
   | [], [] => (true, 0)
-  | ev :: evs', (ld, fl) :: obs' =>
+  | ev :: evs', (mode, ld, fl, pa, pp, rj) :: obs' =>
       let sf' := ctl_step fx sf ev in
       let ob' := apply_event ob ev in
-      let b_files := if same_set ld fl then 0 else 16 in
-      let b_spec :=
-        match ev with
-        | EvUserSig _ _ => if same_set ld (sig_in_force_keys ob' wkeys) then 0 else 16
-        | EvDelUserSig k =>
+      if mode =? 1 then ctl_check fx sf' ob' prev prev_pa (gs || is_waf_sig_event ev) wkeys evs' obs'
+      else
+        let sig_op := gs || is_waf_sig_event ev in
+        let pal := list_ascii_of_string pa in
+        let b_files := if same_set ld fl then 0 else 16 in
+        let b_spec :=
+          if sig_op then
             if same_set ld (sig_in_force_keys ob' wkeys) then 0
-            else match lookup k (ob_sig ob) with None => 2 | Some _ => 16 end
-        | _ => if same_set ld prev then 0 else 16
-        end in
-      let '(a, b) := ctl_check fx sf' ob' ld wkeys evs' obs' in
-      (same_set (snd sf') ld && a, Z.lor (Z.lor b_files b_spec) b)
+            else match ev with
+                 | EvDelUserSig k => if mode =? 2 then 16 else match lookup k (ob_sig ob) with None => 2 | Some _ => 16 end
+                 | _ => 16
+                 end
+          else if same_set ld prev then 0 else 16 in
+        let b_flip :=
+          if (mode =? 2) || is_waf_sig_event ev
+          then if policy_flips_processed wkeys prev_pa pal pp rj then 0 else 32
+          else 0 in
+        let x_ok := same_set (snd sf') ld &&
+                    ascii_list_eqb (map (fun k => answer_char (get_app_resource (waf (fst sf')) KPolicy k)) wkeys) pal in
+        let '(a, b) := ctl_check fx sf' ob' ld pal false wkeys evs' obs' in
+        (x_ok && a, Z.lor (Z.lor (Z.lor b_files b_spec) b_flip) b)
   | _, _ => (false, 16)
   end.
 
@@ -181,9 +214,9 @@ Fixpoint ctl_check (fx : bool) (sf : state * list string) (ob : objects) (prev :
     invalid, log conf missing, log conf invalid (DoS); usable] *)
 Definition c19_case (id : Z) (fx : bool) (enabled : bool) (wkeys : list string) (pkeys : list (string * string))
            (evs : list event) (runs : list (list nat * list obs_step))
-           (ctl : list nat * list (list string * list string)) : list Z :=
+           (ctl : list nat * list ctl_obs) : list Z :=
   let st0 := init enabled in
-  let '(ctl_agree, ctl_bits) := ctl_check fx (st0, []) objs0 [] wkeys (pick evs (fst ctl)) (snd ctl) in
+  let '(ctl_agree, ctl_bits) := ctl_check fx (st0, []) objs0 [] (map (fun _ => "N"%char) wkeys) false wkeys (pick evs (fst ctl)) (snd ctl) in
   let a0 := spec_answers acceptable enabled objs0 wkeys pkeys in
   let agree := forallb (fun r => x_run fx st0 wkeys pkeys (pick evs (fst r)) (snd r)) runs && ctl_agree in
   let bits := fold_left (fun b r => Z.lor b (s_run enabled objs0 a0 wkeys pkeys (pick evs (fst r)) (snd r))) runs 0 in
